@@ -245,7 +245,12 @@ def extra_scripts(seed, unb):
             txs += noise.some(h, vals)
             b.update({"dt": 60 if ee else 1, "txs": txs})
             blocks.append(b)
-        out.append({"id": f"x-{variant}-{seed}", "cfg": cfg, "blocks": blocks})
+        sc = {"id": f"x-{variant}-{seed}", "cfg": cfg, "blocks": blocks}
+        if variant == "downtime":    # k3 misses blocks 7..12 (window 4): jailed in block 9, removed by the epoch end of block 12
+            sc["plan"] = {"exports": [rng.choice([10, 11])], "exports_t": [8, 9, 10, 11, 13]}
+        if variant == "evidence":    # duplicate-vote evidence against k3 in block 11, epoch end in block 12
+            sc["plan"] = {"exports": [11], "exports_t": [7, 9, 11, 13]}
+        out.append(sc)
     return out
 
 
@@ -302,6 +307,50 @@ def oracle_scripts(seed, tier):
                 txs.append({"k": "send", "s": "s2", "o": "s3", "x": str(rng.randint(1, 10 ** 6))})
             blocks.append({"dt": 1, "txs": txs})
         out.append({"id": f"o-{seed}-{v}", "cfg": cfg, "blocks": blocks})
+    return out
+
+
+def lifecycle_scripts(seed, tier):
+    """operator lifecycle states AT THE MOMENT OF EXPORT (strict off, no noise on the validators): opted-in not yet active, active,
+    key replaced (old key unbonding), jailed but still seated, opting out (unbonding), jailed and removed, unjailed not yet
+    re-seated.  Epoch ends in blocks 4, 9, 13, 16, 19.
+      3  optin o4 (k4), setkey o2 -> k2b                     export 3: opted-in-not-active, key-replaced
+      4  epoch end: k4 and k2b seated, k2 unbonding
+      5..7 k3 does not sign -> jailed in block 7 (downtime, x/slashing), stays seated until block 9
+      8  optout o2                                            export 7/8: JAILED BUT SEATED (8: + opting out)
+      9  epoch end: k3 and k2b leave the set                  export 10: jailed and removed, opt-out unbonding
+      11 unjail o3                                            export 12: unjailed not yet re-seated
+      13 epoch end: k3 seated again; 14 setkey o4 -> k4b      export 15: key replaced again
+    the imported chains run through the following epoch ends with the original's inputs: validator set and validator updates
+    must agree (C18 SameFuture)."""
+    out = []
+    for v in range(1 if tier == "quick" else 2):
+        rng = random.Random(seed * 307 + v)
+        cfg = base_cfg(1)
+        blocks = prologue()
+        ee = {4, 9, 13, 16, 19}
+        for h in range(3, 21):
+            txs, b = [], {}
+            if h == 3:
+                txs += [{"k": "optin", "o": "o4", "key": "k4"}, {"k": "setkey", "o": "o2", "key": "k2b"},
+                        {"k": "nundel", "s": "s1", "o": "o3", "x": "1000000000000000"},
+                        {"k": "undel", "s": "s2", "a": "lst", "o": "o3", "x": "1234567", "n": 101}]
+            if h in (5, 6, 7):
+                b["miss"] = ["k3"]
+            if h == 8:
+                txs.append({"k": "optout", "o": "o2"})
+            if h == 11:
+                txs.append({"k": "unjail", "o": "o3"})
+            if h == 14:
+                txs.append({"k": "setkey", "o": "o4", "key": "k4b"})
+            if rng.random() < 0.5:
+                txs.append({"k": "send", "s": "s2", "o": "s3", "x": str(rng.randint(1, 10 ** 6))})
+            if rng.random() < 0.4:
+                txs.append({"k": "dep", "s": "s3", "a": rng.choice(ASSETS), "x": str(rng.choice([1, 1000003]))})
+            b.update({"dt": 60 if h in ee else 1, "txs": txs})
+            blocks.append(b)
+        out.append({"id": f"x-life-{seed}-{v}", "cfg": cfg, "blocks": blocks,
+                    "plan": {"exports": [rng.choice([7, 8]), 10, 12], "exports_t": [3, 5, 7, 8, 10, 12, 15]}})
     return out
 
 
@@ -412,6 +461,8 @@ def plan_script(sc, beh, seed, tier):
         if tier != "quick":
             exports += [c[2] for c in cands[1:4]]
             exports += [h for h in range(H0 + 1, end - 3) if h not in exports][:: 2]
+    elif "plan" in sc:       # hand-shaped script that names the lifecycle states worth exporting (not an input of the node)
+        exports = list(sc["plan"]["exports"] if tier == "quick" else sc["plan"].get("exports_t", sc["plan"]["exports"]))
     else:
         exports = [rng.randint(H0 + 3, end - 5)]
     exports = sorted(set(exports))
@@ -504,6 +555,8 @@ def _run(tier, seed, harness, d, only_scripts=None):
             scripts.append((sc, None, False))
         for sc in feetie_scripts(seed, tier):
             scripts.append((sc, None, False))
+        for sc in lifecycle_scripts(seed, tier):
+            scripts.append((sc, None, False))
     else:
         K = 3
         unb = 1
@@ -546,6 +599,20 @@ def _run(tier, seed, harness, d, only_scripts=None):
             elif ln["ev"] == "export":
                 counts["export"] += 1
                 st = ln.get("st", {})
+                for o, x in st.get("ops", {}).items():
+                    seated = [k for k in st.get("vals", []) if key_op(k) == o]
+                    if x.get("jailed") and seated:
+                        counts["export-state:jailed-but-seated"] += 1
+                    elif x.get("jailed"):
+                        counts["export-state:jailed-and-removed"] += 1
+                    if x.get("opted") and x.get("key") and not seated and not x.get("jailed"):
+                        counts["export-state:opted-in-not-seated"] += 1
+                    if seated and x.get("key") not in seated:
+                        counts["export-state:key-replaced-old-key-seated"] += 1
+                    if x.get("removing"):
+                        counts["export-state:opting-out"] += 1
+                    if seated and x.get("opted") and not x.get("jailed") and x.get("key") in seated:
+                        counts["export-state:active"] += 1
                 for q in ("optq", "pruneq", "matq", "hold", "recs"):
                     if st.get(q):
                         counts["export-with-" + q] += 1
@@ -579,6 +646,14 @@ def _run(tier, seed, harness, d, only_scripts=None):
             t["l"] += lo
             tags.append(t)
     by_id = {sc["id"]: (sc, b, strict) for sc, b, strict, _ in results}
+    idx = {"export": {}, "imp_from": {}, "orig_obs": {}}
+    for ln in all_lines:
+        if ln.get("ev") == "export":
+            idx["export"][(ln["script"], ln["h"])] = ln
+        elif ln.get("ev") == "import":
+            idx["imp_from"][(ln["script"], ln["run"])] = ln["h"]
+        elif ln.get("ev") == "obs" and ln.get("role") == "orig":
+            idx["orig_obs"][(ln["script"], ln["h"])] = ln
     diverged = set()     # (script, run) whose first C08 divergence has been reported: later blocks of that run only follow
     for t in tags:
         li = t["l"] - 1
@@ -590,6 +665,8 @@ def _run(tier, seed, harness, d, only_scripts=None):
                 counts["c08-blocks-after-first-divergence"] += 1
                 continue
             diverged.add(key)
+        if any(x.startswith("C18_") for x in t["tags"]):
+            refine_c18(t, ln, idx)
         t["script"] = sid
         t["behaviour"] = {"script": by_id[sid][0], "model": by_id[sid][1], "strict": by_id[sid][2], "seed": seed, "tier": tier}
         t["world"] = "chain4x2"
@@ -610,6 +687,59 @@ def _run(tier, seed, harness, d, only_scripts=None):
                    "exporting process + one fresh process per exported document; events = trace lines (one per executed block/export/import); "
                    "distinct_nontrivial = distinct (tx kind, code, precompile result) triples")
     return res
+
+
+def key_op(label):
+    """consensus key labels encode their operator: k2b -> o2"""
+    d = "".join(ch for ch in label[1:] if ch.isdigit())
+    return "o" + d if label.startswith("k") and d else "?" + label
+
+
+def valkeys_ops(exp_st):
+    """operators whose exported validator entry is known to be wrong (finding VALKEYS): their SEATED key is not their current key
+    (replacement pending), or the seated key has lost its reverse lookup"""
+    r = set()
+    for k in exp_st.get("vals", []):
+        o = key_op(k)
+        cur = exp_st.get("ops", {}).get(o, {}).get("key")
+        if cur != k or k not in exp_st.get("rev", {}):
+            r.add(o)
+    return r
+
+
+def refine_c18(t, ln, idx):
+    """make the details of validator-set differences precise, so that the known VALKEYS signature covers only what VALKEYS explains:
+    01 / vals / valupd become <x>:valkeys when every differing key belongs to an operator with a pending key replacement at
+    export, valupd:power when removals and the resulting validator set agree and only powers differ, <x>:unexplained otherwise (e.g. a jailed-but-seated validator missing)"""
+    sid, run = ln.get("script"), ln.get("run")
+    exp = idx["export"].get((sid, idx["imp_from"].get((sid, run))))
+    if exp is None:
+        return
+    R = valkeys_ops(exp.get("st", {}))
+
+    def explained(a, b):
+        diff = set(a) ^ set(b)
+        return bool(diff) and all(key_op(k) in R for k in diff)
+    det = list(t.get("detail") or [])
+    if "C18_RoundTrip_dogfood" in t["tags"] and "01" in det:
+        det[det.index("01")] = "01:valkeys" if explained(exp["st"].get("vals", []), ln.get("st", {}).get("vals", [])) else "01:unexplained"
+    if "C18_SameFuture" in t["tags"]:
+        orig = idx["orig_obs"].get((sid, ln.get("h")))
+        if orig is not None and "st" in orig and "st" in ln:
+            if "vals" in det:
+                det[det.index("vals")] = "vals:valkeys" if explained(orig["st"]["vals"], ln["st"]["vals"]) else "vals:unexplained"
+            if "valupd" in det:
+                a = {v["key"]: v["power"] for v in orig["obs"].get("valupd", [])}
+                b = {v["key"]: v["power"] for v in ln["obs"].get("valupd", [])}
+                a0, b0 = {k for k in a if a[k] == 0}, {k for k in b if b[k] == 0}
+                va, vb = set(orig["st"]["vals"]), set(ln["st"]["vals"])
+                if a0 == b0 and va == vb:
+                    cls = "valupd:power"      # same removals, same resulting set: only powers (and which powers changed) differ
+                else:
+                    diff = (a0 ^ b0) | (va ^ vb)
+                    cls = "valupd:valkeys" if all(key_op(k) in R for k in diff) else "valupd:unexplained"
+                det[det.index("valupd")] = cls
+    t["detail"] = det
 
 
 def finding_matches(f, t):
